@@ -173,9 +173,13 @@ unsigned FilePersister::get_last_seqnum(unsigned& sequence) const
 unsigned FilePersister::get(const unsigned from, const unsigned to, Session& session,
 		bool (Session::*callback)(const Session::SequencePair& with, Session::RetransmissionContext& rctx)) const
 {
-	unsigned last_seq(0);
-	get_last_seqnum(last_seq);
-	unsigned recs_sent(0), startSeqNum(find_nearest_highest_seqnum (from, last_seq));
+	unsigned last_seq(0), startSeqNum;
+	{
+		f8_scoped_spin_lock guard(_spl);
+		get_last_seqnum(last_seq);
+		startSeqNum = find_nearest_highest_seqnum (from, last_seq);
+	}
+	unsigned recs_sent(0);
 	const unsigned finish(to == 0 ? last_seq : to);
 	Session::RetransmissionContext rctx(from, to, session.get_next_send_seq());
 
@@ -187,28 +191,40 @@ unsigned FilePersister::get(const unsigned from, const unsigned to, Session& ses
 		return 0;
 	}
 
-	Index::const_iterator itr(_index.find(startSeqNum));
-	if (itr != _index.end())
+	// A sending thread may put() while the range is being answered; index and file offset are shared, so each
+	// record is looked up and read under the lock. It is not held across the callback, which sends.
+	char buff[FIX8_MAX_MSG_LENGTH];
+	unsigned seqnum(startSeqNum), size(0);
+	enum { found, finished, failed, missing };
+	auto fetch([&](const bool first)->int
 	{
-		char buff[FIX8_MAX_MSG_LENGTH];
-
-		do
+		f8_scoped_spin_lock guard(_spl);
+		Index::const_iterator itr(first ? _index.find(seqnum) : _index.upper_bound(seqnum));
+		if (itr == _index.end())
+			return first ? missing : finished;
+		if (!itr->first || itr->first > finish)
+			return finished;
+		if (lseek(_fod, itr->second._offset, SEEK_SET) < 0)
 		{
-			if (!itr->first || itr->first > finish)
-				break;
-			if (lseek(_fod, itr->second._offset, SEEK_SET) < 0)
-			{
-				glout_error << "Error: could not seek to correct index location for get: " << _dbFname;
-				break;
-			}
+			glout_error << "Error: could not seek to correct index location for get: " << _dbFname;
+			return failed;
+		}
+		if (read (_fod, buff, itr->second._size) != itr->second._size)
+		{
+			glout_error << "Error: could not read message record for seqnum " << itr->first << " from: " << _dbFname;
+			return failed;
+		}
+		seqnum = itr->first;
+		size = itr->second._size;
+		return found;
+	});
 
-			if (read (_fod, buff, itr->second._size) != itr->second._size)
-			{
-				glout_error << "Error: could not read message record for seqnum " << itr->first << " from: " << _dbFname;
-				break;
-			}
-
-			Session::SequencePair txresult(itr->first, f8String(buff, itr->second._size));
+	int result(fetch(true));
+	if (result != missing)
+	{
+		for (; result == found; result = fetch(false))
+		{
+			Session::SequencePair txresult(seqnum, f8String(buff, size));
 			++recs_sent;
 			if (!(session.*callback)(txresult, rctx))
 			{
@@ -216,7 +232,6 @@ unsigned FilePersister::get(const unsigned from, const unsigned to, Session& ses
 				break;
 			}
 		}
-		while(++itr != _index.end());
 
 		rctx._no_more_records = true;
 		(session.*callback)(Session::SequencePair(0, ""), rctx);
@@ -232,6 +247,7 @@ unsigned FilePersister::get(const unsigned from, const unsigned to, Session& ses
 //-------------------------------------------------------------------------------------------------
 bool FilePersister::put(const unsigned sender_seqnum, const unsigned target_seqnum)
 {
+	f8_scoped_spin_lock guard(_spl);
 	if (!_opened)
 		return false;
 	IPrec iprec(0, sender_seqnum, target_seqnum);
@@ -258,6 +274,7 @@ bool FilePersister::put(const unsigned sender_seqnum, const unsigned target_seqn
 //-------------------------------------------------------------------------------------------------
 bool FilePersister::put(const unsigned seqnum, const f8String& what)
 {
+	f8_scoped_spin_lock guard(_spl);
 	if (!_opened || !seqnum)
 		return false;
 
@@ -297,6 +314,7 @@ bool FilePersister::put(const unsigned seqnum, const f8String& what)
 //-------------------------------------------------------------------------------------------------
 bool FilePersister::get(unsigned& sender_seqnum, unsigned& target_seqnum) const
 {
+	f8_scoped_spin_lock guard(_spl);
 	if (!_opened)
 		return false;
 
@@ -321,6 +339,7 @@ bool FilePersister::get(unsigned& sender_seqnum, unsigned& target_seqnum) const
 //-------------------------------------------------------------------------------------------------
 bool FilePersister::get(const unsigned seqnum, f8String& to) const
 {
+	f8_scoped_spin_lock guard(_spl);
 	if (!_opened || !seqnum || _index.empty())
 		return false;
 	Index::const_iterator itr(_index.find(seqnum));
